@@ -1,9 +1,42 @@
-"""C08  Rendering and tagify are pure and consistent; tagify returns an independent copy."""
+"""C08  Rendering and tagify are pure and consistent; tagify returns an independent copy.
+
+ENTRY POINTS that can reach what the property talks about (each is driven below with default and
+non-default arguments; the oracle is always the property's own: the receiver's / arguments' whole
+object graph is structurally unchanged, an equal call gives an equal result again, tagify()/copy
+results are equal to, and independent of, the original, the four string forms agree, == is structural):
+
+  Tag / TagList    tagify(); render(); get_html_string(indent=0..5, eol="\n" | "" | "\r\n" | "<br>")
+                   [TagList also add_ws=False]; get_dependencies(dedup=True|False); str / repr /
+                   _repr_html_ in the default mode AND under htmltools.html_dependency_render_mode =
+                   "json"; save_html(file, libdir=None|"lib"|"a/b", include_version=True|False);
+                   copy.copy / copy.deepcopy; __eq__ (both directions, twins, perturbed twins);
+                   mutation routes used by the independence clauses: append / insert (also negative
+                   index) / extend / += / children[i] = .. / del / pop / add_class(prepend=) /
+                   remove_class / add_style(prepend=) / attrs[...] = / attrs.update / name / add_ws
+  construction     Tag(...); the tags.* / top-level re-exported functions (htmltools.div ...); another
+  routes           tag's .attrs object passed as the attribute dict; consolidate_attrs(...) and back
+                   into a tag; add_class / add_style helpers with HTML() values; nested lists / tuples /
+                   TagLists of children; TagList + x, x + TagList, +=; the with-block (sys.displayhook)
+                   route, finished and still active; head_content(...); jsx_tag_create components
+  HTMLDocument     HTMLDocument(x, lang=, class_=, style=, HTML() values).render(lib_prefix=None|""|
+                   "lib"|"a/b", include_version=); .save_html(file, libdir=, include_version=);
+                   .append(x); copy.copy(document); HTMLDocument._hoist_head_content
+  HTMLTextDocument HTMLTextDocument(text, deps=[...], deps_replace_pattern=<with regex metacharacters>)
+                   .render(lib_prefix=, include_version=), also on text produced in json render mode
+  HTMLDependency   as_html_tags / as_dict / source_path_map (lib_prefix=None|""|"x/y", include_version=);
+                   serialize_to_script_json(indent=None|0|2|4); str / repr / copy.copy / copy.deepcopy /
+                   ==; sources None, {href}, {subdir}, {package: None, subdir}, {package: name, subdir};
+                   script / stylesheet / meta given as one dict or as lists; head given as str / tag / list
+"""
 from __future__ import annotations
 
+import atexit
 import copy
+import hashlib
 import os
+import random
 import shutil
+import sys
 import tempfile
 
 import glob
@@ -15,7 +48,9 @@ from ..trees import build, safe_call
 from ..snapshot import snapshot, structure, mutable_ids
 
 import htmltools
-from htmltools import HTML, HTMLDependency, HTMLDocument, MetadataNode, Tag, TagList
+from htmltools import (HTML, HTMLDependency, HTMLDocument, HTMLTextDocument, MetadataNode, Tag, TagList,
+                       consolidate_attrs, head_content)
+from htmltools import tags as _tags
 from htmltools._core import TagAttrDict
 
 WHAT_DEP_SHARE = ("tagify() copy of a dependency shares internal objects (head child list / script, stylesheet, "
@@ -27,13 +62,110 @@ def _k(what, case, detail):
     return what == WHAT_DEP_SHARE
 
 
+WHAT_EQ_WITH = ("== is false for structurally identical tags: one of them was used as a context manager "
+                "(its block has finished), the other was not")
+
+
+@known_matcher("F10-eq-after-with")
+def _k10(what, case, detail):
+    return what == WHAT_EQ_WITH
+
+
+def known_shape_eq_after_with(ctx: Ctx) -> None:
+    """F10: Tag.__exit__ never resets prev_displayhook and == compares every instance field, so a tag
+    whose with-block has finished no longer equals an identically built tag (same name, flag,
+    attributes, children).  Exercised on the smallest instance and on a nested one."""
+    import sys
+    from htmltools import Tag
+    for nested in (False, True):
+        a, b = Tag("div", "x", id="i"), Tag("div", "x", id="i")
+        old = sys.displayhook
+        try:
+            sys.displayhook = lambda v: None
+            if nested:
+                with Tag("section"):
+                    with a:
+                        pass
+            else:
+                with a:
+                    pass
+        finally:
+            sys.displayhook = old
+        ctx.count(("eq-after-with", nested), True, "equality after a finished with-block")
+        same_text = str(a) == str(b)
+        r = safe_call(lambda: (a == b, b == a))
+        if same_text and r != ("ok", (True, True)):
+            ctx.violation(WHAT_EQ_WITH, {"built": "Tag('div', 'x', id='i') twice; `with a: pass` once", "nested": nested},
+                          {"impl_output": repr(r), "expected": "(True, True)"})
+
+
 # ---- generators ---------------------------------------------------------------------------
-def rand_dep(rng):
+# Description language of this harness (a superset of trees.py's; JSON-able):
+#   ('S', i)                         the i-th shared object (aliasing)
+#   ('M', kw)                        dependency: HTMLDependency(**kw); kw['head'] may be a description or a
+#                                    list of descriptions; {'head_content': [descs]} builds head_content(...)
+#   ('W', name, ws, attrs, kids)     a tag filled through the with-block route:  with tag: displayhook(kid) ...
+#   ('A', route, name, ws, attrs, kids)  a tag whose attributes arrive by another public route (ATTR_ROUTES)
+#   ('J', name, props, kids)         a jsx_tag_create(name) component (tagifiable AND self-rendering)
+#   ('L', depth, kids)               the kids wrapped in `depth` levels of list / tuple / TagList (flattened
+#                                    by the constructor that receives them)
+#   ('Q', kids[, how])               a top-level TagList, made by the constructor or by + / reflected + / += and extend
+ASSETS_TOKEN = "$ASSETS"      # stands for a real directory with a.js, 'b c.js', s.css, sub/c.js, big.bin
+_ASSETS: list = []
+
+
+def assets_dir() -> str:
+    """a real source directory for dependencies (made once per process, removed at exit); big.bin is
+    larger than 256 KiB and its size is not a multiple of 64 KiB"""
+    if not _ASSETS:
+        d = tempfile.mkdtemp(prefix="verif-c08-assets-")
+        atexit.register(shutil.rmtree, d, True)
+        os.makedirs(os.path.join(d, "sub"))
+        for name, data in [("a.js", b"/*a*/\n"), ("b c.js", b"/*b c*/\n"), ("s.css", b"p{}\n"),
+                           (os.path.join("sub", "c.js"), b"/*c*/\n"),
+                           ("big.bin", bytes((i * 7 + i // 65536) % 251 for i in range(300007)))]:
+            with open(os.path.join(d, name), "wb") as f:
+                f.write(data)
+        _ASSETS.append(d)
+    return _ASSETS[0]
+
+
+def _subst_assets(v):
+    if isinstance(v, dict):
+        return {k: _subst_assets(x) for k, x in v.items()}
+    if isinstance(v, str) and v == ASSETS_TOKEN:
+        return assets_dir()
+    return v
+
+
+def rand_dep(rng, rich=False):
     kw = {"name": rng.choice(["a", "b", "c"]), "version": rng.choice(["1.0", "1.10", "2"])}
-    if rng.random() < 0.5:
+    if rich and rng.random() < 0.6:
+        # every way of writing the source (files exist, so save_html gets past the existence test)
+        k = rng.randrange(0, 5)
+        if k == 0:
+            kw["source"] = {"subdir": ASSETS_TOKEN}
+        elif k == 1:
+            kw["source"] = {"package": None, "subdir": ASSETS_TOKEN}
+        elif k == 2:
+            kw["source"] = {"subdir": ASSETS_TOKEN, "package": None}
+        elif k == 3:
+            kw["source"] = {"package": "htmltools", "subdir": "lib/react"}
+        else:
+            kw["source"] = {"href": "https://x.y/z"}
+        if k == 3:
+            kw["script"] = {"src": "react.production.min.js"}
+        else:
+            kw["script"] = rng.choice([{"src": "a.js"}, [{"src": "a.js"}, {"src": "b c.js", "defer": ""}],
+                                       [{"src": "sub/c.js", "type": "module"}]])
+            if rng.random() < 0.5:
+                kw["stylesheet"] = rng.choice([{"href": "s.css"}, [{"href": "s.css", "media": "print"}]])
+        if rng.random() < 0.15 and k in (0, 1, 2):
+            kw["all_files"] = True
+    elif rng.random() < 0.5:
         kw["source"] = {"href": rng.choice(["https://x.y/z", "https://x.y/z/"])}
         kw["script"] = rng.choice([{"src": "a.js"}, [{"src": "a.js"}, {"src": "b c.js", "defer": ""}]])
-    if rng.random() < 0.4:
+    if "stylesheet" not in kw and rng.random() < 0.4:
         kw["stylesheet"] = {"href": "s.css"}
     if rng.random() < 0.3:
         kw["meta"] = {"name": "m", "content": "c<"}
@@ -42,94 +174,375 @@ def rand_dep(rng):
     return kw
 
 
-def build_x(d, shared):
-    """like trees.build, but ('M', kw) builds a dependency (head descriptions built too) and
-    ('S', i) refers to the i-th shared object (aliasing)"""
+ATTR_ROUTES = ["attrs_obj", "consolidate", "kwargs", "helpers", "dicts"]
+_DEPTH = [0]                  # nesting depth of with-blocks being built
+
+
+def _sink(value):             # the displayhook under which with-built trees are made (one object: see nested_with)
+    return None
+
+
+def _set_attrs_raw(t, attrs):
+    for key, (m, v) in attrs:
+        dict.__setitem__(t.attrs, key, HTML(v) if m == "H" else v)
+
+
+def build_x(d, shared, ex=None):
+    """like trees.build, for the description language above.  ex (a list) collects objects the
+    construction used besides the result (donor tags whose .attrs were passed on, ...): they are
+    caller-side objects that no later operation on the result may change either."""
     k = d[0]
     if k == "S":
         return shared[d[1] % len(shared)]
     if k == "M":
         if d[1] is None:
             return MetadataNode()
-        kw = dict(d[1])
+        kw = copy.deepcopy(dict(d[1]))       # the dependency keeps the dicts it is given: never the description's own
+        if "head_content" in kw:
+            return head_content(*[build_x(x, shared, ex) for x in kw["head_content"]])
         if isinstance(kw.get("head"), tuple):
-            kw["head"] = build_x(kw["head"], shared)
+            kw["head"] = build_x(kw["head"], shared, ex)
+        elif isinstance(kw.get("head"), list):
+            kw["head"] = [build_x(x, shared, ex) for x in kw["head"]]
+        if "source" in kw:
+            kw["source"] = _subst_assets(kw["source"])
         return HTMLDependency(**kw)
     if k == "G":
         _, name, ws, attrs, kids = d
-        t = Tag(name, *[build_x(x, shared) for x in kids], _add_ws=ws)
-        for key, (m, v) in attrs:
-            dict.__setitem__(t.attrs, key, HTML(v) if m == "H" else v)
+        t = Tag(name, *[build_x(x, shared, ex) for x in kids], _add_ws=ws)
+        _set_attrs_raw(t, attrs)
         return t
+    if k == "W":
+        _, name, ws, attrs, kids = d
+        t = Tag(name, _add_ws=ws)
+        _set_attrs_raw(t, attrs)
+        old = sys.displayhook
+        if _DEPTH[0] == 0:
+            sys.displayhook = _sink
+        _DEPTH[0] += 1
+        try:
+            with t:
+                for kd in kids:
+                    if kd[0] == "W":
+                        build_x(kd, shared, ex)      # a nested with-block hands its tag to the enclosing one on exit
+                    else:
+                        sys.displayhook(build_x(kd, shared, ex))
+        finally:
+            _DEPTH[0] -= 1
+            if _DEPTH[0] == 0:
+                sys.displayhook = old
+        return t
+    if k == "A":
+        _, route, name, ws, attrs, kids = d
+        kb = [build_x(x, shared, ex) for x in kids]
+        vals = [(key, HTML(v) if m == "H" else v) for key, (m, v) in attrs]
+        if route == "attrs_obj":
+            donor = Tag("donor")
+            _set_attrs_raw(donor, attrs)
+            if ex is not None:
+                ex.append(donor)
+            return Tag(name, donor.attrs, *kb, _add_ws=ws)
+        if route == "consolidate":
+            a, kk = consolidate_attrs(dict(vals), *kb)
+            return Tag(name, a, *kk, _add_ws=ws)
+        if route == "kwargs":
+            f = getattr(htmltools, name, None) or getattr(_tags, name, None)
+            kwargs = {key.replace("-", "_") + ("_" if key in ("class", "for") else ""): v for key, v in vals
+                      if key.replace("-", "_").isidentifier()}
+            rest = {key: v for key, v in vals if not key.replace("-", "_").isidentifier()}
+            if callable(f) and getattr(f, "__module__", "") == "htmltools.tags":
+                return f(rest, *kb, _add_ws=ws, **kwargs)
+            return Tag(name, rest, *kb, _add_ws=ws, **kwargs)
+        if route == "helpers":
+            t = Tag(name, *kb, _add_ws=ws)
+            for i, (key, v) in enumerate(vals):
+                if key == "class":
+                    t.add_class(str(v), prepend=i % 2 == 1)
+                elif key == "style":
+                    if not str(v).endswith(";"):       # add_style() wants complete declarations
+                        v = HTML(str(v) + ";") if isinstance(v, HTML) else str(v) + ";"
+                    t.add_style(v, prepend=i % 2 == 1)
+                else:
+                    t.attrs[key] = v
+            return t
+        # "dicts": every attribute in a dict of its own (same-named ones are merged by the constructor)
+        return Tag(name, *[{key: v} for key, v in vals], *kb, _add_ws=ws)
+    if k == "J":
+        from htmltools._jsx import jsx_tag_create
+        _, name, props, kids = d
+        return jsx_tag_create(name)(*[build_x(x, shared, ex) for x in kids], **copy.deepcopy(dict(props)))
+    if k == "L":
+        _, depth, kids = d
+        v = [build_x(x, shared, ex) for x in kids]
+        for i in range(depth):
+            v = [v] if i % 3 == 0 else (v,) if i % 3 == 1 else [TagList(v)]
+        return v
+    if k == "Q":
+        items = [build_x(x, shared, ex) for x in d[1]]
+        how = d[2] if len(d) > 2 else "ctor"
+        h = len(items) // 2
+        if how == "add":                       # TagList + iterable
+            return TagList(*items[:h]) + items[h:]
+        if how == "radd":                      # iterable + TagList
+            return items[:h] + TagList(*items[h:])
+        if how == "iadd":                      # +=, then extend / insert / append
+            l = TagList()
+            l += items[:h]
+            l.extend(items[h:-1])
+            if items:
+                l.insert(len(l), items[-1]) if h % 2 else l.append(items[-1])
+            return l
+        return TagList(*items)
     if k == "C":
         _, sh, exp, as_list = d
-        e = [build_x(x, shared) for x in exp]
+        e = [build_x(x, shared, ex) for x in exp]
         return trees.CustomObj(e, as_list) if sh is None else trees.CustomReprObj(e, as_list, sh)
     return build(d)
 
 
-def rand_tree(rng, depth, root=None, custom=False):
+def kids_of(d):
+    """the child descriptions of a description (dependency heads included)"""
+    k = d[0]
+    if k in "GW":
+        return list(d[4])
+    if k == "A":
+        return list(d[5])
+    if k == "C":
+        return list(d[2])
+    if k == "J":
+        return list(d[3])
+    if k == "L":
+        return list(d[2])
+    if k == "Q":
+        return list(d[1])
+    if k == "M" and d[1] is not None:
+        h = d[1].get("head_content") or d[1].get("head")
+        if isinstance(h, tuple):
+            return [h]
+        if isinstance(h, list):
+            return list(h)
+    return []
+
+
+def kinds_x(d, acc=None):
+    acc = set() if acc is None else acc
+    acc.add("M0" if d[0] == "M" and d[1] is None else d[0])
+    for c in kids_of(d):
+        kinds_x(c, acc)
+    return acc
+
+
+def nested_with(d, inside=False):
+    """a with-built tag inside the with-block of another one"""
+    if d[0] == "W" and inside:
+        return True
+    return any(nested_with(c, inside or d[0] == "W") for c in kids_of(d))
+
+
+def rand_tree(rng, depth, root=None, custom=False, extended=False):
     d = trees.rand_tree(rng, depth, leaves="TTHRMD", names="bbivsc", custom=custom)
-    def fix(x):
+    def fix(x, ext):
+        # (ext is off inside a tagifiable object's expansion: by the Tagifiable contract that holds
+        # ready-made tags and text only)
         if x[0] == "G":
-            return ("G", x[1], x[2], x[3], [fix(k) for k in x[4]])
+            g = ("G", x[1], x[2], x[3], [fix(k, ext) for k in x[4]])
+            if ext:
+                r = rng.random()
+                if r < 0.07:
+                    return ("W",) + g[1:]
+                if r < 0.14:
+                    return ("A", rng.choice(ATTR_ROUTES)) + g[1:]
+                if r < 0.17 and g[4]:
+                    return ("G", g[1], g[2], g[3], [("L", rng.choice([1, 2, 3, 9]), g[4])])
+            return g
         if x[0] == "M" and x[1] is not None:
-            return ("M", rand_dep(rng))
+            return ("M", rand_dep(rng, rich=extended))
         if x[0] == "C":
-            return ("C", x[1], [fix(k) for k in x[2]], x[3])
+            return ("C", x[1], [fix(k, False) for k in x[2]], x[3])
         if x[0] in "TH" and rng.random() < 0.08:
             return ("S", rng.randrange(0, 3))
+        if ext and custom and x[0] in "TH" and rng.random() < 0.04:
+            return ("J", rng.choice(["Foo", "My.Comp"]), [["n", 1], ["s", x[1]], ["o", {"a": [1, {"b": None}]}]],
+                    [("T", x[1]), ("G", "b", False, [], [])])
         return x
-    d = fix(d)
+    d = fix(d, extended)
     if root:
-        d = ("G", root, True, d[3], d[4])
+        d = ("G", root, True, d[4], d[5]) if d[0] == "A" else (d[0], root, True, d[3], d[4])
     return d
 
 
-OPS = ["tagify", "render", "str", "repr", "html", "deps", "copy", "doc", "doc_attrs", "save", "eq", "hoist"]
+def abbrev(d):
+    """the description with very long strings cut in the middle (for reports: the input stays recognisable)"""
+    if isinstance(d, str):
+        return d if len(d) <= 300 else f"{d[:80]}...[{len(d)} characters in all]...{d[-80:]}"
+    if isinstance(d, (list, tuple)):
+        return [abbrev(x) for x in d]
+    if isinstance(d, dict):
+        return {k: abbrev(v) for k, v in d.items()}
+    return d
 
 
-def apply_op(op, x, rng):
+# ---- read-only operations, with their arguments: (key, thunk); an equal key must give an equal result
+LIB_PREFIXES = [None, "", "lib", "a/b"]
+EOLS = ["\n", "", "\r\n", "<br>"]
+DOC_KWS = [{}, {"lang": "en"}, {"lang": "en", "class_": HTML("c"), "style": "margin:0"},
+           {"class_": "a b", "data_x": HTML("<&>")}]
+TEXT_PATTERN = "{{ deps.*+?[x](1)|^$ }}"      # looks like a regular expression; it is a plain string
+OPS = ["tagify", "render", "str", "repr", "html", "deps", "copy", "doc", "doc_attrs", "save", "eq", "hoist",
+       "repr_html", "json_str", "deepcopy", "doc_kw", "doc_copy", "doc_append", "doc_save", "textdoc", "textdoc_json"]
+
+
+class json_mode:
+    """htmltools.html_dependency_render_mode = 'json' for the duration of the block"""
+
+    def __enter__(self):
+        self.old = htmltools.html_dependency_render_mode
+        htmltools.html_dependency_render_mode = "json"
+
+    def __exit__(self, *a):
+        htmltools.html_dependency_render_mode = self.old
+        return False
+
+
+def _saved(f):
+    """run f(dir) in a fresh directory; the result is what it returned plus what it wrote"""
+    d = tempfile.mkdtemp(prefix="verif-c08-")
+    try:
+        r = f(d)
+        files = {}
+        for root, _, names in os.walk(d):
+            for n in names:
+                p = os.path.join(root, n)
+                with open(p, "rb") as fh:
+                    files[os.path.relpath(p, d)] = hashlib.sha1(fh.read()).hexdigest()
+        return [os.path.relpath(r, d) if isinstance(r, str) else repr(r), sorted(files.items())]
+    finally:
+        shutil.rmtree(d, ignore_errors=True)
+
+
+def _text_doc(x, rng, in_json):
+    deps = x.get_dependencies()
+    if in_json:
+        with json_mode():
+            body = str(x)
+    else:
+        body = x.tagify().get_html_string()
+    text = "<html><head>\n" + TEXT_PATTERN + "</head><body>" + body + TEXT_PATTERN + "</body></html>"
+    lp, iv = rng.choice(LIB_PREFIXES), rng.random() < 0.5
+    def go():
+        doc = HTMLTextDocument(text, deps=list(deps), deps_replace_pattern=TEXT_PATTERN)
+        before = snapshot([dict(vars(doc))])
+        r1 = doc.render(lib_prefix=lp, include_version=iv)
+        r2 = doc.render(lib_prefix=lp, include_version=iv)
+        return [r1["html"], structure(r1["dependencies"]), r2["html"] == r1["html"],
+                structure(r2["dependencies"]) == structure(r1["dependencies"]), snapshot([dict(vars(doc))]) == before]
+    return ("textdoc", in_json, lp, iv), go
+
+
+def pick_op(op, x, rng):
+    """(key, thunk) of one read-only operation on x with its arguments drawn from rng"""
     if op == "tagify":
-        return x.tagify()
+        return (op,), lambda: x.tagify()
     if op == "render":
-        return x.render()
+        return (op,), lambda: x.render()
     if op == "str":
-        return str(x)
+        return (op,), lambda: str(x)
     if op == "repr":
-        return repr(x)
+        return (op,), lambda: repr(x)
+    if op == "repr_html":
+        return (op,), lambda: x._repr_html_()
+    if op == "json_str":
+        f = rng.choice([str, repr, lambda o: o._repr_html_()])
+        def go():
+            with json_mode():
+                return f(x)
+        return (op,), go
     if op == "html":
-        return x.get_html_string(rng.randrange(0, 3), rng.choice(["\n", ""]))
+        i, e = rng.choice([0, 0, 1, 2, 5]), rng.choice(EOLS)
+        if isinstance(x, TagList) and rng.random() < 0.4:
+            return (op, i, e, False), lambda: x.get_html_string(i, e, add_ws=False)
+        return (op, i, e), lambda: x.get_html_string(i, e)
     if op == "deps":
-        return x.get_dependencies()
+        dd = rng.random() < 0.6
+        return (op, dd), lambda: x.get_dependencies(dedup=dd)
     if op == "copy":
-        return copy.copy(x)
+        return (op,), lambda: copy.copy(x)
+    if op == "deepcopy":
+        return (op,), lambda: copy.deepcopy(x)
     if op == "doc":
-        return HTMLDocument(x).render(lib_prefix=rng.choice([None, "lib"]), include_version=rng.random() < 0.5)
+        lp, iv = rng.choice([None, "lib"]), rng.random() < 0.5
+        return (op, lp, iv), lambda: HTMLDocument(x).render(lib_prefix=lp, include_version=iv)
     if op == "doc_attrs":
-        return HTMLDocument(x, lang="en", class_=HTML("c")).render()
+        return (op,), lambda: HTMLDocument(x, lang="en", class_=HTML("c")).render()
+    if op == "doc_kw":
+        k, lp, iv = rng.randrange(len(DOC_KWS)), rng.choice(LIB_PREFIXES), rng.random() < 0.5
+        def go():
+            kw = dict(DOC_KWS[k])
+            before = snapshot([kw])
+            r = HTMLDocument(x, **kw).render(lib_prefix=lp, include_version=iv)
+            return [r["html"], structure(r["dependencies"]), snapshot([kw]) == before]
+        return (op, k, lp, iv), go
+    if op == "doc_copy":
+        # a copy of a document is a document of its own: appending to it does not reach the original
+        def go():
+            doc = HTMLDocument(x, lang="en")
+            first = doc.render()["html"]
+            cp = copy.copy(doc)
+            same = cp.render()["html"] == first
+            cp.append(Tag("mut"), "MUT")
+            return [first, same, doc.render()["html"] == first]
+        return (op,), go
+    if op == "doc_append":
+        def go():
+            doc = HTMLDocument()
+            doc.append(x)
+            return doc.render()["html"] == HTMLDocument(x).render()["html"]
+        return (op,), go
     if op == "eq":
-        return x == x.tagify()
+        return (op,), lambda: [x == x.tagify(), x.tagify() == x, x == copy.copy(x)]
     if op == "hoist":
         # the static helper called on its own: it must copy before inserting head content
         if isinstance(x, Tag) and x.name == "html":
-            return HTMLDocument._hoist_head_content(x, rng.choice([None, "lib"]), rng.random() < 0.5)
-        return None
-    if op == "save":
-        d = tempfile.mkdtemp(prefix="verif-c08-")
-        try:
-            return x.save_html(os.path.join(d, "index.html"), libdir=rng.choice([None, "lib"]))
-        finally:
-            shutil.rmtree(d, ignore_errors=True)
+            lp, iv = rng.choice([None, "lib"]), rng.random() < 0.5
+            return (op, lp, iv), lambda: HTMLDocument._hoist_head_content(x, lp, iv)
+        return (op,), lambda: None
+    if op in ("save", "doc_save"):
+        ld, iv = rng.choice([None, "lib", "a/b"]), rng.random() < 0.6
+        if op == "save":
+            return (op, ld, iv), lambda: _saved(lambda d: x.save_html(os.path.join(d, "index.html"), libdir=ld,
+                                                                       include_version=iv))
+        return (op, ld, iv), lambda: _saved(lambda d: HTMLDocument(x, lang="en").save_html(
+            os.path.join(d, "out.html"), libdir=ld, include_version=iv))
+    if op in ("textdoc", "textdoc_json"):
+        return _text_doc(x, rng, op == "textdoc_json")
     raise ValueError(op)
 
 
-DEP_OPS = [
-    lambda d: d.as_html_tags(), lambda d: d.as_html_tags(lib_prefix=None, include_version=False),
-    lambda d: d.as_dict(), lambda d: d.as_dict(lib_prefix="x/y"), lambda d: d.source_path_map(),
-    lambda d: d.serialize_to_script_json(), lambda d: d.serialize_to_script_json(indent=2).get_html_string(),
-    lambda d: str(d), lambda d: copy.copy(d),
-]
+def canon_result(r):
+    """identity-free form of an operation's outcome (for: the same call gives the same result again)"""
+    if r[0] != "ok":
+        return r
+    v = r[1]
+    if isinstance(v, dict) and "html" in v and "dependencies" in v:
+        return ("ok", [v["html"], structure(v["dependencies"])])
+    return ("ok", structure(v))
+
+
+def _dep_ops(rng):
+    lp, iv, ind = rng.choice([None, "", "lib", "x/y"]), rng.random() < 0.5, rng.choice([None, 0, 2, 4])
+    def in_json(d):
+        with json_mode():
+            return str(TagList(Tag("div", d)))
+    return [(("as_html_tags", lp, iv), lambda d: d.as_html_tags(lib_prefix=lp, include_version=iv)),
+            (("as_html_tags",), lambda d: d.as_html_tags()),
+            (("as_dict", lp, iv), lambda d: d.as_dict(lib_prefix=lp, include_version=iv)),
+            (("as_dict",), lambda d: d.as_dict()),
+            (("source_path_map", lp, iv), lambda d: d.source_path_map(lib_prefix=lp, include_version=iv)),
+            (("serialize", ind), lambda d: d.serialize_to_script_json(indent=ind).get_html_string()),
+            (("serialize",), lambda d: d.serialize_to_script_json()),
+            (("str",), lambda d: str(d)), (("repr",), lambda d: repr(d)),
+            (("copy",), lambda d: copy.copy(d)), (("deepcopy",), lambda d: copy.deepcopy(d)),
+            (("json_str",), in_json)]
 
 
 def all_deps(x, acc):
@@ -618,6 +1031,680 @@ def eq_variant(d, rng):
     return None, d
 
 
+def sub_rng(ctx, label):
+    """a generator of its own for one labelled case: a function of the run's seed and the label only (so the
+    case is the same in a --replay run, where the random streams before it are shorter)"""
+    return random.Random(int(hashlib.sha1(f"{ctx.seed}:{label}".encode()).hexdigest()[:12], 16))
+
+
+def make_live(d, head_at=None):
+    """(live object, the other caller-side objects: the shared ones and whatever the construction used)"""
+    shared = [Tag("em", "shared"), HTMLDependency("shared", "1.0", head="<link>"), HTML("<raw>")]
+    ex: list = []
+    x = build_x(d, shared, ex)
+    if head_at is not None and isinstance(x, Tag):
+        x.children.insert(min(head_at, len(x.children)), Tag("head", Tag("title", "t")))
+    return x, shared + ex
+
+
+WHAT_EQ_FALSE = "== is false for structurally identical tags"
+WHAT_NOEXP = "tagify() of a tree without tagifiable objects does not equal the original"
+
+
+def live_battery(ctx, rng, x, others, case, ops, custom, bare, routes=False, tail=False, mutate=True):
+    """The property's clauses on one live object (a Tag or a TagList) and the caller-side objects around it:
+    every read-only operation leaves the whole graph unchanged and gives the same result when repeated;
+    tagify() equals the original when nothing expands, is a fixed point, shares nothing, and (mutate) stays
+    independent under mutation of either side; copy.copy equals and owns its fields; the string forms agree."""
+    is_tag = isinstance(x, Tag)
+    before = snapshot([x, others])
+    results, memo = {}, {}
+    for op in ops:
+        # the receiver is the tag or (one time in four) its child list, a TagList
+        recv = x.children if (is_tag and rng.random() < 0.25) else x
+        key, thunk = pick_op(op, recv, rng)
+        r = safe_call(thunk)
+        after = snapshot([x, others])
+        if after != before:
+            ctx.violation(f"{op} changed an object reachable from its receiver", {**case, "op": op, "args": list(key[1:])},
+                          {"before": _first_diff(before, after)})
+            before = after
+        # the same call again: the same result (the canonical form of a first result is computed when a second
+        # one arrives -- results are fresh objects nobody touches, except copies, which _check_copy mutates)
+        mkey = (recv is x, key)
+        if mkey not in memo:
+            memo[mkey] = ["canon", canon_result(r)] if op == "copy" else ["raw", r]
+        else:
+            if memo[mkey][0] == "raw":
+                memo[mkey] = ["canon", canon_result(memo[mkey][1])]
+            first, cr = memo[mkey][1], canon_result(r)
+            if first != cr:
+                ctx.violation("a read-only call gives a different result when it is repeated (other read-only calls in between)",
+                              {**case, "op": op, "args": list(key[1:])},
+                              {"first": _first_diff(first, cr) if first[0] == cr[0] else [str(first)[:200], str(cr)[:200]]})
+        if r[0] == "ok" and op == "doc_kw" and r[1][2] is not True:
+            ctx.violation("HTMLDocument(x, **kwargs).render() changed a keyword argument object", {**case, "op": op}, {})
+        if r[0] == "ok" and op == "doc_copy" and not (r[1][1] and r[1][2]):
+            ctx.violation("copy.copy(document) renders differently, or appending to the copy changed the original document",
+                          {**case, "op": op}, {"copy renders the same": r[1][1], "original the same after appending to the copy": r[1][2]})
+        if r[0] == "ok" and op in ("textdoc", "textdoc_json") and not all(v is True for v in r[1][2:]):
+            ctx.violation("HTMLTextDocument.render() changed its document / dependencies or gives another result the second time",
+                          {**case, "op": op, "args": list(key[1:])}, {"same html, same dependencies, document unchanged": r[1][2:]})
+        if op == "copy" and r[0] == "ok":
+            _check_copy(ctx, recv, r[1], case, rng, lambda: snapshot([x, others]), bare or custom)
+        if op == "tagify" and r[0] == "ok" and recv is not x:
+            common = set(mutable_ids(recv)) & set(mutable_ids(r[1]))
+            if common:
+                ctx.violation("tagify() result shares a tag, child list, attribute map or metadata node object with the original",
+                              {**case, "receiver": "child list"}, {})
+        if op in ("str", "repr", "render", "repr_html") and r[0] == "ok":
+            v = r[1]["html"] if op == "render" else r[1]
+            key = "s" if recv is x else "l"
+            results.setdefault(key, v)
+            if results[key] != v:
+                ctx.violation("str(x), repr(x), x.render()['html'] differ or change between calls",
+                              case, {"first": results[key][:2000], "now": v[:2000]})
+    # dependency methods are read-only too
+    deps_in = all_deps(x, [])
+    for dep in (deps_in[:2] + deps_in[-2:] if len(deps_in) > 4 else deps_in[:3]):
+        key, f = rng.choice(_dep_ops(rng))
+        safe_call(lambda: f(dep))
+        after = snapshot([x, others])
+        if after != before:
+            ctx.violation("an HTMLDependency as_html_tags/as_dict/source_path_map/serialize call changed an object",
+                          {**case, "call": list(key)}, {"before": _first_diff(before, after)})
+            before = after
+    if routes:
+        forms = [safe_call(lambda: str(x)), safe_call(lambda: repr(x)), safe_call(lambda: x._repr_html_()),
+                 safe_call(lambda: x.render()["html"])]
+        if any(f != forms[0] for f in forms):
+            ctx.violation("str(x), repr(x), x._repr_html_() and x.render()['html'] are not the same string", case,
+                          {"forms": [str(f)[:1500] for f in forms]})
+        if not custom:     # (an un-expanded object that also renders itself shows its own markup on the direct route)
+            msg = trees.routes_disagree(x)
+            if msg is not None and forms[0][0] == "ok":
+                ctx.violation("the ways of getting the markup of one tree disagree", case, {"what": msg[:3000]})
+    # ---- copy.copy: equal to the original -------------------------------------------------
+    if routes or rng.random() < 0.3:
+        r = safe_call(lambda: copy.copy(x))
+        if r[0] == "ok":
+            _check_copy(ctx, x, r[1], case, rng, lambda: snapshot([x, others]), bare or custom, mutate=False)
+    # ---- tagify: equal when nothing expands, fixed point, independent ------------------
+    r = safe_call(lambda: x.tagify())
+    if r[0] != "ok":
+        return
+    y = r[1]
+    if not custom and (structure(x) != structure(y) or (not bare and not (x == y and y == x))):
+        ctx.violation(WHAT_NOEXP, case, {"same structure": structure(x) == structure(y),
+                                         "x == x.tagify()": safe_call(lambda: x == y), "x.tagify() == x": safe_call(lambda: y == x)})
+    z = y.tagify()
+    if structure(z) != structure(y) or str(z) != str(y) or (not bare and not (z == y and y == z)):
+        ctx.violation("tagify() is not a fixed point of tagify()", case, {})
+    a, b = mutable_ids(x), mutable_ids(y)
+    common = set(a) & set(b)
+    if common:
+        ctx.violation("tagify() result shares a tag, child list, attribute map or metadata node object with the original",
+                      case, {"shared": sorted({a[i] for i in common})})
+    # dependency internals
+    for dx, dy in zip(all_deps(x, []), all_deps(y, [])):
+        if (dx.head is not None and dx.head is dy.head) or (dx.script and dx.script is dy.script):
+            ctx.violation(WHAT_DEP_SHARE, case, {"dep": dx.name})
+            break
+    if mutate:
+        _mutation_part(ctx, rng, x, others, case, custom, bare, tail)
+
+
+def guarded(ctx, case, f):
+    """An exception that escapes here comes from an implementation call made outside safe_call: building a
+    valid tree, ==, tagify() of a tagify() result, str() of it, a public mutation.  None of them raises in
+    a library that has the property; if one does, that is reported with the input (never a harness crash)."""
+    from ..common import ImplTimeout
+    try:
+        f()
+    except ImplTimeout:
+        ctx.violation("an operation on a valid tree did not terminate", case, {})
+    except Exception as e:
+        import traceback
+        tb = [f"{os.path.basename(fr.filename)}:{fr.lineno} {fr.name}" for fr in traceback.extract_tb(e.__traceback__)][-6:]
+        ctx.violation(f"an operation of the property on a valid tree raised {type(e).__name__}", case, {"where": tb})
+
+
+def battery(ctx, rng, d, ops, label=None, head_at=None, routes=False, tail=False):
+    case = {"tree": abbrev(d), "ops": ops}
+    if label:
+        case["case"] = label
+    guarded(ctx, case, lambda: _battery(ctx, rng, d, ops, label, head_at, routes, tail))
+
+
+def _battery(ctx, rng, d, ops, label=None, head_at=None, routes=False, tail=False):
+    kinds = kinds_x(d)
+    custom = bool(kinds & {"C", "J"})
+    bare = "M0" in kinds
+    case = {"tree": abbrev(d), "ops": ops, "kinds": "".join(sorted(k[0] for k in kinds))}
+    if label:
+        case["case"] = label
+    if head_at is not None:
+        case["head inserted at"] = head_at
+    ctx.count(("pure", label, ops) if label else ("pure", d, ops), bool(kinds & {"M", "C", "J", "W", "A", "S"}) or label is not None,
+              ("sizes / features: " + label.split("/")[0]) if label else "interleaving of read-only operations")
+    x, others = make_live(d, head_at)
+    # twins: an identically built object is equal, before and after the read-only operations
+    # (left out: harness objects and bare metadata nodes, which compare by identity; and trees in which a
+    # with-block was entered inside another one -- the inner tag keeps the enclosing block's displayhook wrapper
+    # in its public prev_displayhook field, a closure made afresh by every __enter__, so two such trees built
+    # by the same statements are != in the unchanged library: reported as an observation about /repo, see the
+    # final report of round 5; copies of such trees ARE compared with their originals)
+    twin_ok = not custom and not bare and "R" not in kinds and not nested_with(d)
+    x2 = None
+    if twin_ok and (label is not None or rng.random() < 0.3):
+        x2, _ = make_live(d, head_at)
+        if not (x == x2 and x2 == x):
+            ctx.violation(WHAT_EQ_FALSE, case, {"x == twin": safe_call(lambda: x == x2), "twin == x": safe_call(lambda: x2 == x)})
+            x2 = None
+    live_battery(ctx, rng, x, others, case, ops, custom, bare, routes, tail, mutate=False)
+    if x2 is not None:
+        if not (x == x2 and x2 == x):
+            ctx.violation("after read-only operations an object no longer equals an identically built one", case, {})
+        if tail:
+            for what, dv in tail_variants(d):
+                xv, _ = make_live(dv, head_at)
+                if x == xv or xv == x:
+                    ctx.violation(f"== is true for tags that differ in {what}", {**case, "other": abbrev(dv)}, {})
+    # independence under mutation, on a fresh pair (the mutations change x)
+    _mutation_part(ctx, rng, x, others, case, custom, bare, tail)
+
+
+def _mutation_part(ctx, rng, x, others, case, custom, bare, tail):
+    r = safe_call(lambda: x.tagify())
+    if r[0] != "ok":
+        return
+    y = r[1]
+    before = snapshot([x, others])
+    _mutate(y, rng, tail)
+    if snapshot([x, others]) != before:
+        ctx.violation("mutating the tagify() copy through the public API changed the original", case,
+                      {"before": _first_diff(before, snapshot([x, others]))})
+    y2 = x.tagify()
+    before2 = snapshot([y2])
+    _mutate(x, rng, tail)
+    if snapshot([y2]) != before2:
+        ctx.violation("mutating the original through the public API changed an earlier tagify() copy", case,
+                      {"before": _first_diff(before2, snapshot([y2]))})
+
+
+def tail_variants(d):
+    """descriptions that differ from d only at the far end: in the LAST child of the widest / deepest
+    place (its text, one more child after it, one child fewer)"""
+    out = []
+
+    def last_path(x):
+        ks = kids_of(x)
+        if x[0] in "GWAQ" and ks:
+            return [x] + last_path(ks[-1])
+        return [x]
+
+    def rebuild(path, new_last):
+        cur = new_last
+        for node in reversed(path[:-1]):
+            ks = kids_of(node)[:-1] + ([cur] if cur is not None else [])
+            if node[0] in "GW":
+                cur = (node[0], node[1], node[2], node[3], ks)
+            elif node[0] == "A":
+                cur = node[:5] + (ks,)
+            else:
+                cur = ("Q", ks)
+        return cur
+    path = last_path(d)
+    if len(path) < 2:
+        return out
+    leaf = path[-1]
+    if leaf[0] in "TH":
+        out.append(("a child's text", rebuild(path, (leaf[0], leaf[1] + "!"))))
+    if leaf[0] in "GWA":
+        nm = 2 if leaf[0] == "A" else 1
+        out.append(("tag name", rebuild(path, leaf[:nm] + (leaf[nm] + "q",) + leaf[nm + 1:])))
+        out.append(("whitespace flag", rebuild(path, leaf[:nm + 1] + (not leaf[nm + 1],) + leaf[nm + 2:])))
+    out.append(("the structure of the children", rebuild(path, None)))
+    parent = path[-2]
+    ks = kids_of(parent) + [("T", "extra")]
+    grown = (parent[0], parent[1], parent[2], parent[3], ks) if parent[0] in "GW" else \
+        parent[:5] + (ks,) if parent[0] == "A" else ("Q", ks)
+    out.append(("the structure of the children", rebuild(path[:-1], grown) if len(path) > 2 else grown))
+    # the LAST attribute of the root: its value
+    if d[0] in "GW" and d[3]:
+        k0, (m0, v0) = d[3][-1]
+        out.append(("an attribute value", (d[0], d[1], d[2], list(d[3][:-1]) + [(k0, (m0, v0 + "!"))], d[4])))
+        out.append(("the set of attributes", (d[0], d[1], d[2], list(d[3][:-1]), d[4])))
+    return out
+
+
+# ---- sizes and depths -----------------------------------------------------------------------
+SIZES = [7, 8, 9, 15, 16, 17, 31, 32, 33, 63, 64, 65, 127, 128, 129, 255, 256, 257, 300]
+DEPTHS = [7, 8, 9, 15, 16, 17, 31, 32, 33, 63, 64, 65, 70]
+CHEAP_OPS = [o for o in OPS if o not in ("save", "doc_save", "textdoc", "textdoc_json", "deepcopy")]
+
+
+def sizes_for(ctx, dim, depths=False):
+    """quick: both sides of two thresholds (drawn per seed and dimension) and always 255, 256, 257, 300
+    (depths: 63, 64, 65, 70); thorough: all of them"""
+    if not ctx.quick:
+        return DEPTHS if depths else SIZES
+    r = sub_rng(ctx, "sizes:" + dim)
+    picks = {63, 64, 65, 70} if depths else {255, 256, 257, 300}
+    for t in r.sample([8, 16, 32] if depths else [8, 16, 32, 64, 128], 1 if depths else 2):
+        picks |= {t - 1, t, t + 1}
+    return sorted(picks)
+
+
+def long_text(n, salt=""):
+    """n characters; the interesting ones (markup, quotes, an ampersand, a non-ASCII letter) sit at the very end"""
+    tail = f" & <b x=\"1\" y='2'>é{salt}</b>"
+    unit = "plain words, line one\nline two; "
+    body = (unit * (n // len(unit) + 1))[:max(0, n - len(tail))]
+    return body + tail
+
+
+def rich_dep(i, source=None, n_items=1):
+    kw = {"name": f"d{i}", "version": f"1.{i}",
+          "source": source if source is not None else {"href": f"https://cdn.x/d{i}"},
+          "script": [{"src": f"f{j}.js"} for j in range(n_items)] if n_items != 1 else {"src": "a.js"}}
+    if n_items != 1:
+        kw["stylesheet"] = [{"href": f"s{j}.css"} for j in range(n_items)]
+        kw["meta"] = [{"name": f"m{j}", "content": f"c{j}<"} for j in range(n_items)]
+    return kw
+
+
+def _kid(i):
+    k = i % 4
+    if k == 0:
+        return ("T", f"item {i} <&>")
+    if k == 1:
+        return ("G", "span", False, [("id", ("S", f"c{i}"))], [("T", f"cell {i}")])
+    if k == 2:
+        return ("H", f"<i>{i}</i>")
+    return ("G", "p", True, [("class", ("H", f"k{i}"))], [("T", "a"), ("G", "br", False, [], [])])
+
+
+PKG_NONE = {"package": None, "subdir": ASSETS_TOKEN}
+
+
+def sized_cases(ctx):
+    """a handful of big inputs per countable thing, the interesting content beyond the threshold"""
+    out = []
+    turn = [0]
+
+    def add(label, d, n_ops=2, pool=CHEAP_OPS, must=(), n=None, of=1):
+        # quick tier: beyond the largest threshold (257, 300, depth 65, 70) every variant of a dimension,
+        # at the other sizes the variants take turns
+        turn[0] += 1
+        if ctx.quick and n is not None and n not in (257, 300, 65, 70) and (turn[0] + n) % of:
+            return
+        r = sub_rng(ctx, "ops:" + label)
+        out.append((label, d, list(must) + [r.choice(pool) for _ in range(n_ops)]))
+
+    def add_n(n, of):
+        return lambda label, d, **kw: add(label, d, n=n, of=of, **kw)
+
+    for n in sizes_for(ctx, "children"):
+        add_n(n, 3)(f"children of one tag, text only/{n}", ("G", "div", True, [], [("T", f"item {i}") for i in range(n)]))
+        # ... mixed, the last child a dependency written with an explicit null package
+        kids = [_kid(i) for i in range(n - 1)] + [("M", rich_dep(n, PKG_NONE))]
+        add_n(n, 3)(f"children of one tag, mixed, a dependency last/{n}", ("G", "div", True, [("id", ("S", "w"))], kids), must=["json_str"])
+        add_n(n, 3)(f"items of a top-level list/{n}", ("Q", [_kid(i + 1) for i in range(n - 1)] + [("T", "last")], ["ctor", "add", "radd", "iadd"][n % 4]))
+    for n in sizes_for(ctx, "nested"):
+        add_n(n, 3)(f"a wide list three levels down/{n}",
+            ("G", "div", True, [], [("G", "section", True, [], [("G", "ul", True, [], [_kid(i) for i in range(n)])]), ("T", "tail")]))
+        # ... the last child needs expansion (two items spliced in at the far end)
+        kids = [_kid(i) for i in range(n - 1)] + [("C", None, [("G", "b", False, [], [("T", "x")]), ("M", rich_dep(n))], True)]
+        add_n(n, 3)(f"children of one tag, a tagifiable object last/{n}", ("G", "div", True, [], kids))
+        add_n(n, 3)(f"children added in a with-block/{n}", ("W", "div", True, [("id", ("S", "w"))], [_kid(i) for i in range(n)]))
+    for n in sizes_for(ctx, "attrs"):
+        attrs = [(f"data-k{i}", ("H" if i == n - 1 else "S", f"v{i}&")) for i in range(n)]
+        add_n(n, 4)(f"attributes of one tag/{n}", ("G", "div", True, attrs, [("T", "x")]))
+        add_n(n, 4)(f"attribute dicts given to the constructor/{n}", ("A", "dicts", "div", True, attrs, [("T", "x")]))
+        add_n(n, 4)(f"values merged into one attribute/{n}",
+            ("A", "dicts", "div", True, [("class", ("H" if i == n - 1 else "S", f"t{i}")) for i in range(n)], [("T", "x")]))
+        add_n(n, 4)(f"props of one component/{n}",
+                    ("G", "div", True, [], [("J", "Foo", [[f"p{i}", {"v": i} if i == n - 1 else i] for i in range(n)],
+                                             [("T", "c"), ("M", rich_dep(3, PKG_NONE))])]), must=["json_str"])
+        add_n(n, 4)(f"class tokens added one by one/{n}",
+            ("A", "helpers", "div", True, [("class", ("S", f"t{i}")) for i in range(n)] + [("style", ("H", "color:red;"))], []))
+    for n in sizes_for(ctx, "deps"):
+        # n different dependencies, then a family of versions of one name; the last of each written differently
+        kids = [("M", rich_dep(i)) for i in range(n - 1)] + [("M", rich_dep(n - 1, PKG_NONE))]
+        add_n(n, 3)(f"dependencies in one tree/{n}", ("G", "div", True, [], [("G", "p", True, [], kids[:n // 2]), ("T", "x")] + kids[n // 2:]),
+            must=["deps", "doc_kw", "json_str"], pool=CHEAP_OPS + ["textdoc", "textdoc_json"])
+        fam = [("M", {**rich_dep(0), "version": f"1.{i}"}) for i in range(n - 1)] + \
+              [("M", {**rich_dep(0, PKG_NONE), "version": f"1.{n}", "head": "<meta name='last'>"})]
+        add_n(n, 3)(f"versions of one dependency/{n}", ("G", "body", True, [], fam + [("T", "x")]), must=["deps", "doc", "json_str"])
+        add_n(n, 3)(f"script, stylesheet and meta items of one dependency/{n}",
+            ("G", "div", True, [], [("T", "x"), ("M", rich_dep(0, None, n))]), must=["doc_kw", "json_str"])
+    for n in sizes_for(ctx, "depth", depths=True):
+        bottom = ("W", "p", True, [("id", ("S", "deep"))], [("T", "bottom <&>"), ("M", rich_dep(n, PKG_NONE))])
+        t = bottom
+        for i in range(n - 1):
+            t = ("G", ["div", "section", "span", "ul"][i % 4], i % 4 != 2, [("class", ("S", f"l{i}"))] if i % 5 == 0 else [],
+                 [t] if i % 3 else [("T", "x"), t])
+        add_n(n, 3)(f"nesting depth of tags/{n}", t, must=["json_str"])
+        add_n(n, 3)(f"nesting depth of lists, tuples and TagLists given as children/{n}",
+            ("G", "div", True, [], [("T", "first"), ("L", n, [("G", "b", False, [], [("T", "deep")]), ("M", rich_dep(1)), ("T", "last")])]))
+        prop = {"leaf": "v", "n": [1, 2.5, None, True]}
+        for i in range(n):
+            prop = {"k": prop} if i % 2 else [i, prop]
+        add_n(n, 3)(f"nesting depth of component props/{n}",
+            ("G", "div", True, [], [("J", "Foo", [["deep", prop], ["s", "x"]], [("G", "b", False, [], []), ("M", rich_dep(2))])]))
+    for n in sizes_for(ctx, "history"):
+        d = ("G", "html", True, [], [("G", "body", True, [], [("W", "div", True, [], [("T", "a<"), ("M", rich_dep(0, PKG_NONE))]),
+                                                             ("S", 1), ("G", "p", True, [("class", ("H", "c"))], [("S", 0), ("H", "<raw>")])])])
+        add(f"operations in one history/{n}", d, n_ops=n, pool=CHEAP_OPS * 6 + OPS)
+    for n in ([300, 5000, 70000] if ctx.quick else [299, 300, 301, 4999, 5000, 5001, 65535, 65536, 65537, 70000, 300000]):
+        s = long_text(n)
+        d = ("G", "div", True, [("title", ("S", long_text(n, "a"))), ("class", ("H", long_text(n, "c")))],
+             [("T", s), ("H", long_text(n, "h")), ("G", "script", True, [], [("T", long_text(n, "s"))]),
+              ("M", {"name": "long", "version": "1.0", "head": long_text(n, "d"), "source": PKG_NONE,
+                     "script": {"src": "a.js", "data-x": long_text(n, "j")}}),
+              ("G", "p", True, [], [("T", "x"), ("T", long_text(n, "t"))])])
+        add(f"strings of a given length/{n}", d, n_ops=4, pool=CHEAP_OPS + ["textdoc_json", "save"], must=["json_str", "html"])
+    # files: a dependency that copies a directory holding a file of 300007 bytes
+    for i, src in enumerate([{"subdir": ASSETS_TOKEN}, PKG_NONE]):
+        d = ("G", "div", True, [], [("M", {"name": "files", "version": "2.0", "source": src, "all_files": True,
+                                           "script": [{"src": "a.js"}, {"src": "sub/c.js"}], "stylesheet": {"href": "s.css"}}),
+                                    ("T", "x")])
+        add(f"files to copy/{i}", d, n_ops=0, must=["save", "doc_save", "save", "doc_save"])
+    return out
+
+
+def feature_cases(ctx):
+    """two features together"""
+    dep = {"name": "inner", "version": "3.1", "source": PKG_NONE, "script": {"src": "a.js"},
+           "head": ("G", "meta", False, [("name", ("S", "inner"))], [])}
+    comp = ("J", "Foo", [["n", 1], ["o", {"a": [1, {"b": None}]}], ["t", "x<"]],
+            [("G", "b", False, [("class", ("S", "k"))], [("T", "bold")]), ("M", dict(dep)), ("T", "t&")])
+    both = ("C", "<self-rendered>", [("G", "i", False, [], [("T", "from tagify")]), ("M", rich_dep(5))], True)
+    items = [
+        ("dependencies inside head_content inside a document with its own html, head and body",
+         ("G", "html", True, [("lang", ("S", "de"))],
+          [("G", "head", True, [], [("G", "title", True, [], [("T", "t")])]),
+           ("G", "body", True, [("class", ("S", "b"))],
+            [("G", "div", True, [], [("M", {"head_content": [("G", "script", True, [("src", ("S", "x.js"))], []), ("M", dict(dep)),
+                                                             ("T", "t<")]}), ("T", "x")]),
+             ("M", dict(dep))])]),
+         ["doc", "doc_kw", "hoist", "doc_save", "textdoc_json", "json_str", "doc_attrs", "render"]),
+        ("a component inside ordinary tags inside a with-block",
+         ("W", "div", True, [("id", ("S", "a"))], [("G", "p", True, [], [comp, ("T", "after")]), ("T", "x"),
+                                                   ("W", "section", True, [], [comp, ("H", "<hr>")])]),
+         ["tagify", "render", "json_str", "doc_kw", "copy", "deepcopy", "str"]),
+        ("objects that are tagifiable and self-rendering",
+         ("G", "div", True, [], [both, ("T", "x"), comp, ("G", "span", False, [], [both])]),
+         ["tagify", "str", "repr_html", "render", "doc", "json_str", "deps"]),
+        ("HTML() values through the class / style helpers, consolidate_attrs and back into a tag",
+         ("A", "consolidate", "div", True, [("class", ("H", "a&b")), ("style", ("H", "color:red;")), ("title", ("S", "t<"))],
+          [("A", "helpers", "span", False, [("class", ("H", "x<y")), ("style", ("S", "margin:0")), ("class", ("S", "z")),
+                                            ("style", ("H", "top:1px;"))], [("T", "t")]),
+           ("A", "attrs_obj", "p", True, [("class", ("H", "p&q")), ("data-x", ("S", "1"))], [("T", "u")]),
+           ("A", "kwargs", "div", True, [("class", ("H", "k")), ("data-x", ("S", "1")), ("a:b", ("S", "c"))], [("T", "v")])]),
+         ["str", "html", "copy", "eq", "doc_kw", "tagify"]),
+        ("json render mode together with HTMLTextDocument",
+         ("G", "body", True, [], [("M", dict(dep)), ("G", "div", True, [], [("M", rich_dep(1, None, 3)), ("T", "</script>")]),
+                                  ("M", {"name": "u", "version": "1", "source": {"subdir": ASSETS_TOKEN, "package": None},
+                                         "stylesheet": [{"href": "s.css"}], "head": "<!-- </script> -->"})]),
+         ["textdoc_json", "json_str", "textdoc", "textdoc_json", "str", "json_str", "doc_save"]),
+        ("a tag that was used as a context manager, then copied, compared and rendered",
+         ("G", "section", True, [], [("W", "div", True, [("id", ("S", "a"))], [("T", "Hello, "), ("G", "i", False, [], [("T", "big")]),
+                                                                             ("M", dict(dep))]), ("T", "tail")]),
+         ["copy", "eq", "tagify", "str", "render", "deepcopy", "doc"]),
+        ("with-blocks inside with-blocks",
+         ("W", "div", True, [], [("W", "p", True, [], [("T", "a"), ("W", "b", False, [], [("T", "deep")])]),
+                                 ("G", "span", False, [], [("W", "i", False, [], [("T", "in two parents")])]), ("R", "<u>r</u>")]),
+         ["copy", "eq", "tagify", "str", "html", "doc_copy"]),
+        ("a top-level list made with + and +=, holding with-built tags and dependencies",
+         ("Q", [("W", "div", True, [], [("T", "a"), ("M", dict(dep))]), ("T", "t<"), ("M", dict(dep)), ("H", "<hr>"),
+                ("A", "helpers", "p", True, [("class", ("S", "k"))], [("T", "x")]), ("L", 3, [("T", "nested"), ("G", "b", False, [], [])])],
+          "iadd"),
+         ["tagify", "html", "deps", "json_str", "copy", "save", "doc_kw", "eq"]),
+        ("one object placed in two parents",
+         ("G", "div", True, [], [("S", 0), ("G", "p", True, [], [("S", 0), ("S", 1), ("S", 2)]), ("S", 1), ("S", 2),
+                                 ("Q", [("S", 0)])]),
+         ["tagify", "deps", "doc", "json_str", "copy", "render", "save"]),
+    ]
+    out = []
+    for label, d, ops in items:
+        out.append((label + "/0", d, ops))
+        # the same features under a document root, operations in another order
+        r = sub_rng(ctx, label)
+        ops2 = list(ops)
+        r.shuffle(ops2)
+        if d[1] != "html":
+            out.append((label + "/1", ("G", "html", True, [], [("G", "body", True, [], [d, ("T", "x")])]), ops2 + ["hoist", "doc_kw"]))
+    return out
+
+
+def active_with_blocks(ctx):
+    for i in range(ctx.budget(12, 200)):
+        label = f"inside an active with-block/{i}"
+        guarded(ctx, {"case": label}, lambda: _active_with_block(ctx, label))
+
+
+def _active_with_block(ctx, label):
+    """the clauses hold for a tag whose with-block is STILL ACTIVE (and for its children), and after it ended"""
+    rng = sub_rng(ctx, label)
+    inner = rand_tree(rng, rng.choice([1, 2]), None, rng.random() < 0.3, extended=True)
+    kid_descs = kids_of(inner) if inner[0] in "GW" else [inner]
+    kid_descs = [k for k in kid_descs if k[0] != "L"] + [("W", "p", True, [], [("T", "in a nested block")])]
+    d = ("W", "div", True, [("id", ("S", "a"))], kid_descs)
+    kinds = kinds_x(d)
+    custom, bare = bool(kinds & {"C", "J"}), "M0" in kinds
+    ops = [rng.choice(CHEAP_OPS) for _ in range(4)]
+    case = {"case": label, "tree": abbrev(d), "ops": ops, "kinds": "".join(sorted(k[0] for k in kinds)),
+            "when": "while the with-block of the root is active"}
+    ctx.count(("active", d, ops), True, "sizes / features: active with-block")
+    shared = [Tag("em", "shared"), HTMLDependency("shared", "1.0", head="<link>"), HTML("<raw>")]
+    outer = Tag("div", _add_ws=True)
+    _set_attrs_raw(outer, d[3])
+    old = sys.displayhook
+    sys.displayhook = _sink
+    _DEPTH[0] += 1
+    try:
+        with outer:
+            hook = sys.displayhook
+            for kd in kid_descs:
+                if kd[0] == "W":
+                    build_x(kd, shared)
+                else:
+                    sys.displayhook(build_x(kd, shared))
+            live_battery(ctx, rng, outer, shared, case, ops, custom, bare, routes=True, mutate=False)
+            for c in list(outer.children):
+                if isinstance(c, Tag):
+                    live_battery(ctx, rng, c, [outer, shared], {**case, "receiver": "a child of the root"}, ops[:2], custom, bare,
+                                 mutate=False)
+                    break
+            if sys.displayhook is not hook:
+                ctx.violation("a read-only operation inside an active with-block replaced sys.displayhook", case, {})
+    finally:
+        _DEPTH[0] -= 1
+        sys.displayhook = old
+    live_battery(ctx, rng, outer, shared, {**case, "when": "after the with-block ended"}, ops, custom, bare, routes=True)
+
+
+def second_objects(ctx):
+    """State shared between objects: build an object, use it in every way (mutations through the public API,
+    read-only operations, a with-block), then build a SECOND one from the same arguments: it must be what
+    the first one was when it was new (structure, string forms, render results)."""
+    from htmltools._jsx import jsx_tag_create
+    serial = HTMLDependency("ser", "1.0", source={"href": "h"}, script={"src": "a.js"}).serialize_to_script_json().get_html_string()
+
+    def use_tag(t):
+        t.append("x", Tag("i"))
+        t.attrs["data-k"] = "v"
+        t.attrs.update({"class": "u"}, title="t")
+        t.add_class("c").add_style("color:red;")
+        t.children.insert(0, HTML("<h>"))
+        old = sys.displayhook
+        sys.displayhook = _sink
+        try:
+            with t:
+                sys.displayhook("w")
+        finally:
+            sys.displayhook = old
+        str(t), t.render(), t.tagify(), copy.copy(t), t.get_dependencies()
+        HTMLDocument(t, lang="en").render()
+
+    def use_list(l):
+        l.append("x", Tag("i"))
+        l += ["y", HTMLDependency("q", "1")]
+        l.insert(0, HTML("<h>"))
+        str(l), l.render(), l.tagify()
+
+    def use_doc(doc):
+        doc.render(lib_prefix=None)
+        doc.append(Tag("p", HTMLDependency("q", "1", head="<x>")), "more")
+        doc.render()
+        copy.copy(doc).append("z")
+
+    def use_textdoc(doc):
+        doc.render()
+        doc.render(lib_prefix=None, include_version=False)["dependencies"].append(HTMLDependency("q", "1"))
+
+    def use_dep(dep):
+        dep.as_html_tags(), dep.as_dict(), dep.serialize_to_script_json(indent=2), str(dep)
+        dep.script.append({"src": "z.js"})
+        dep.stylesheet.append({"href": "z.css"})
+        dep.meta.append({"name": "z", "content": "z"})
+        if dep.head is not None:
+            dep.head.append("z")
+        if dep.source is not None:
+            dep.source["href"] = "changed"
+        dep.as_dict()["meta"].append({"name": "y", "content": "y"})
+
+    def use_jsx(j):
+        j.append("x")
+        j.attrs["p"] = {"a": 1}
+        str(j), j.tagify()
+
+    def use_attrs(a):
+        a["k"] = "v"
+        a.update({"class": "x"}, {"class": "y"})
+
+    makers = [
+        ("Tag('div')", lambda: Tag("div"), use_tag),
+        ("Tag('div', {'class': 'a'}, 'x', id='i')", lambda: Tag("div", {"class": "a"}, "x", id="i"), use_tag),
+        ("htmltools.div()", lambda: htmltools.div(), use_tag),
+        ("htmltools.tags.script('s')", lambda: _tags.script("s"), use_tag),
+        ("TagList()", lambda: TagList(), use_list),
+        ("TagList('a', Tag('b'))", lambda: TagList("a", Tag("b")), use_list),
+        ("TagList() + ['a']", lambda: TagList() + ["a"], use_list),
+        ("HTMLDocument()", lambda: HTMLDocument(), use_doc),
+        ("HTMLDocument(Tag('div'), lang='en')", lambda: HTMLDocument(Tag("div"), lang="en"), use_doc),
+        ("HTMLTextDocument(text holding a serialised dependency)", lambda: HTMLTextDocument("<html><head></head><body>" + serial + "</body></html>"),
+         use_textdoc),
+        ("HTMLTextDocument(text, deps=[dep], deps_replace_pattern='X')",
+         lambda: HTMLTextDocument("<html><head>X</head>" + serial + "</html>", deps=[HTMLDependency("o", "2")], deps_replace_pattern="X"),
+         use_textdoc),
+        ("HTMLDependency('n', '1')", lambda: HTMLDependency("n", "1"), use_dep),
+        ("HTMLDependency('n', '1', source=.., script=.., stylesheet=.., meta=.., head=..)",
+         lambda: HTMLDependency("n", "1", source={"href": "h"}, script={"src": "a.js"}, stylesheet={"href": "s.css"},
+                                meta={"name": "m", "content": "c"}, head="<x>"), use_dep),
+        ("head_content('t')", lambda: head_content("t"), use_dep),
+        ("jsx_tag_create('Foo')()", lambda: jsx_tag_create("Foo")(), use_jsx),
+        ("jsx_tag_create('Foo')('c', p=1)", lambda: jsx_tag_create("Foo")("c", p=1), use_jsx),
+        ("TagAttrDict()", lambda: TagAttrDict(), use_attrs),
+        ("TagAttrDict({'class': 'a'}, id='i')", lambda: TagAttrDict({"class": "a"}, id="i"), use_attrs),
+    ]
+
+    def observe(o):
+        obs = [structure(dict(vars(o))) if isinstance(o, (HTMLDocument, HTMLTextDocument)) else structure(o)]
+        for f in (str, lambda v: v.render(), lambda v: v.as_dict(), lambda v: v.tagify()):
+            if isinstance(o, (HTMLDocument, HTMLTextDocument)) and f is str:
+                continue          # documents have no string form of their own (the default repr shows an address)
+            r = safe_call(lambda: f(o))
+            obs.append(canon_result(r) if r[0] == "ok" else ("err",))
+        return obs
+    for rounds in range(2):
+        for name, make, use in makers:
+            ctx.count(("second object", name, rounds), True, "sizes / features: second object of a class")
+            r = safe_call(lambda: [observe(make()), safe_call(lambda: use(make())), observe(make())])
+            if r[0] != "ok":
+                ctx.violation("constructing an object raised", {"constructor": name, "round": rounds}, {"error": r[1]})
+                continue
+            first, _, again = r[1]
+            if again != first:
+                ctx.violation("a second, identically constructed object is not what the first one was when it was new "
+                              "(state shared between objects)", {"constructor": name, "round": rounds},
+                              {"difference": _first_diff(first, again)})
+
+
+def dep_batteries(ctx):
+    """HTMLDependency on its own: every way of writing the source / the file lists / the head, sizes of the
+    lists around thresholds; a history of read-only methods with all their arguments; the dependency (and the
+    dicts it was given) structurally unchanged, equal calls equal results, still == an identically built twin"""
+    heads = [None, "<meta name='x'>", ("G", "title", True, [], [("T", "t&")]),
+             [("G", "script", True, [], [("T", "1</script>")]), ("T", "x")]]
+    sources = [None, {"href": "https://x.y/z"}, {"subdir": ASSETS_TOKEN}, PKG_NONE, {"subdir": ASSETS_TOKEN, "package": None},
+               {"package": "htmltools", "subdir": "lib/react"}]
+    n_items = sizes_for(ctx, "dep-items")
+    for i in range(ctx.budget(60, 1500)):
+        guarded(ctx, {"case": f"dependency methods/{i}"}, lambda: _dep_battery(ctx, i, heads, sources, n_items))
+
+
+def _dep_battery(ctx, i, heads, sources, n_items):
+    label = f"dependency methods/{i}"
+    rng = sub_rng(ctx, label)
+    src = sources[i % len(sources)]
+    kw = rich_dep(i % 7, src, rng.choice([1, 1, 2, 3] + ([rng.choice(n_items)] if i % 10 == 0 else [])))
+    if src is None:
+        kw.pop("source")
+    if src is not None and src.get("package") == "htmltools":
+        kw["script"], kw["stylesheet"] = {"src": "react.production.min.js"}, []
+    h = rng.choice(heads)
+    if h is not None:
+        kw["head"] = h
+    d = ("M", kw)
+    n_calls = rng.choice([3, 5, 8] + ([rng.choice(SIZES)] if i % 15 == 0 else []))
+    ctx.count(("dep", d, n_calls), True, "sizes / features: dependency methods")
+    dep, twin = build_x(d, []), build_x(d, [])
+    case = {"case": label, "dependency": abbrev(kw), "calls": []}
+    if not (dep == twin and twin == dep):
+        ctx.violation("== is false for identically built dependencies", case, {})
+        return
+    before = snapshot([dep])
+    memo = {}
+    for _ in range(n_calls):
+        key, f = rng.choice(_dep_ops(rng))
+        if len(case["calls"]) < 12:
+            case["calls"].append(list(key))
+        r = safe_call(lambda: f(dep))
+        cr = canon_result(r)
+        after = snapshot([dep])
+        if after != before:
+            ctx.violation("an HTMLDependency as_html_tags/as_dict/source_path_map/serialize call changed an object",
+                          {**case, "call": list(key)}, {"before": _first_diff(before, after)})
+            break
+        if key in memo and memo[key] != cr:
+            ctx.violation("a read-only call gives a different result when it is repeated (other read-only calls in between)",
+                          {**case, "call": list(key)}, {})
+            break
+        memo.setdefault(key, cr)
+        if key[0] in ("copy", "deepcopy") and r[0] == "ok" and not (r[1] == dep and dep == r[1]):
+            ctx.violation("a copy of a dependency does not equal the dependency", {**case, "call": list(key)}, {})
+            break
+    if not (dep == twin and twin == dep):
+        ctx.violation("after read-only operations an object no longer equals an identically built one", case, {})
+    # one field changed: not equal
+    k2 = copy.deepcopy(kw)
+    which = rng.choice(["name", "version", "script", "all_files"])
+    if which == "script":
+        sc = k2.get("script") or []
+        sc = [sc] if isinstance(sc, dict) else list(sc)
+        k2["script"] = sc + [{"src": "one-more.js"}]
+    elif which == "all_files":
+        k2["all_files"] = True
+    else:
+        k2[which] = k2[which] + "1"
+    other = build_x(("M", k2), [])
+    if dep == other or other == dep:
+        ctx.violation(f"== is true for dependencies that differ in {which}", {**case, "other": abbrev(k2)}, {})
+
+
 def run(ctx: Ctx) -> None:
     rng = ctx.rng
     ctx.rule = ("Correspondence: random object graphs (depth <= 4; dependencies, HTML(), _repr_html_ objects, "
@@ -630,11 +1717,26 @@ def run(ctx: Ctx) -> None:
                 "sharing between inputs and results is compared); == against the model of _equals_impl on pairs "
                 "(identical, attribute order permuted, str<->HTML with the same text, one field changed); the string forms "
                 "against the pure layer; thorough adds all trees with <= 2 levels over an 8-leaf alphabet under 3 roots "
-                "x 10 operations run twice.  Oracle: per tree a random interleaving of 3..8 read-only operations on the "
-                "tag or its child list, the whole reachable object graph snapshotted before and after each; id()-sets of "
-                "original vs tagify() result; copy.copy owns its attribute map / child list; mutation of the copy and of "
-                "the original through the public API; ==, str/repr/_repr_html_/render consistency.  Non-trivial = graph "
-                "has aliasing, a dependency or an object; distinct = canonical description + operations.")
+                "x 10 operations run twice.  Oracle: per tree a random interleaving of 3..8 of 21 read-only operations "
+                "(every entry point listed at the top of the harness file, arguments drawn from their non-default values, "
+                "both dependency render modes, documents, text documents, save_html into real directories) on the tag or "
+                "its child list; the whole reachable object graph and the caller-side objects (shared objects, donor "
+                "attribute maps, keyword arguments) snapshotted before and after each; an equal call must give an equal "
+                "result again; id()-sets of original vs tagify() result; copy.copy equals x and owns its attribute map / "
+                "child list; x == twin built by the same description before and after the operations, != variants that "
+                "differ at the far end; mutation of the copy and of the original through 12 public routes; str/repr/"
+                "_repr_html_/render and every other rendering route agree.  Trees come from the random generator (tags "
+                "built by constructor, with-block, other tags' .attrs, consolidate_attrs, class/style helpers, keyword "
+                "arguments of the tag functions, nested lists; components; dependencies with every way of writing the "
+                "source) AND from a fixed family around size thresholds (7..9, 15..17, 31..33, 63..65, 127..129, 255..257, "
+                "300 children / list items / attributes / merged values / class tokens / dependencies / versions / "
+                "script-stylesheet-meta items / operations in one history; depth 7..70 of tags, of nested lists, of "
+                "component props; strings of 300, 5000, 70000 characters with the markup at the end; a 300007-byte file), "
+                "the interesting content last; feature pairs (head_content + own html/head/body, components in "
+                "with-blocks, tagifiable + self-rendering, helpers + consolidate_attrs, json mode + HTMLTextDocument, "
+                "used context managers, one object in two parents); live with-blocks; a second object of every class "
+                "after the first was used.  Non-trivial = graph has aliasing, a dependency, an object or a non-constructor "
+                "route; distinct = canonical description + operations.")
     ctx.assumptions = ["object identity and aliasing are observed on CPython (id(), is)",
                        "dependency internals (head child list, script/stylesheet/meta lists, source dict) are outside the "
                        "heap model (OMeta carries an opaque payload): known finding F8 lives there; the purity of "
@@ -643,8 +1745,12 @@ def run(ctx: Ctx) -> None:
                        "a tagifiable object's tagify() returns fresh, fully tagified nodes on every call (the Tagifiable "
                        "contract; the harness class does); its expansion holds no further tagifiable object",
                        "HTMLDocument's attribute update, dependency resolution and the tags a dependency contributes are "
-                       "supplied to the extracted model through the models of C15 / C10 and as data"]
+                       "supplied to the extracted model through the models of C15 / C10 and as data",
+                       "inputs beyond the heap correspondence's scope -- with-block-built tags (prev_displayhook set), "
+                       "components, the non-constructor attribute routes, the size / depth family, json render mode, text "
+                       "documents, save_html -- are decided by the specification oracle alone (snapshots, twins, repeats)"]
     ctx.proof()
+    known_shape_eq_after_with(ctx)
 
     # ---- step B: correspondence with the extracted heap model ------------------------------
     cases = []
@@ -738,83 +1844,23 @@ def run(ctx: Ctx) -> None:
     if bad:
         ctx.extra["disagree_forms"] = bad[:3]
 
-    n = ctx.budget(1000, 20000)
+    n = ctx.budget(1000, 14000)
     for it in range(n):
         root = rng.choice([None, None, None, "html", "body", "head"])
         custom = rng.random() < 0.3
-        d = rand_tree(rng, rng.choice([1, 2, 3, 4]), root, custom)
-        shared = [Tag("em", "shared"), HTMLDependency("shared", "1.0", head="<link>"), HTML("<raw>")]
-        x = build_x(d, shared)
-        if root == "html" and rng.random() < 0.5:
-            x.children.insert(rng.randrange(0, len(x.children) + 1), Tag("head", Tag("title", "t")))
+        d = rand_tree(rng, rng.choice([1, 2, 3, 4]), root, custom, extended=True)
         ops = [rng.choice(OPS) for _ in range(rng.choice([3, 4, 5, 8]))]
-        nontriv = ("M" in repr(d) or "C" in repr(d))
-        ctx.count(("pure", d, ops), nontriv, "interleaving of read-only operations")
-        before = snapshot([x, shared])
-        results = {}
-        for op in ops:
-            # the receiver is the tag or (one time in four) its child list, a TagList
-            recv = x.children if rng.random() < 0.25 else x
-            r = safe_call(lambda: apply_op(op, recv, rng))
-            after = snapshot([x, shared])
-            if after != before:
-                ctx.violation(f"{op} changed an object reachable from its receiver", {"tree": d, "ops": ops, "op": op},
-                              {"before": _first_diff(before, after)})
-                before = after
-            if op == "copy" and r[0] == "ok":
-                _check_copy(ctx, recv, r[1], d, rng, lambda: snapshot([x, shared]))
-            if op == "tagify" and r[0] == "ok" and recv is not x:
-                common = set(mutable_ids(recv)) & set(mutable_ids(r[1]))
-                if common:
-                    ctx.violation("tagify() result shares a tag, child list, attribute map or metadata node object with the original",
-                                  {"tree": d, "receiver": "child list"}, {})
-            if op in ("str", "repr", "render") and r[0] == "ok":
-                v = r[1]["html"] if op == "render" else r[1]
-                key = "s" if recv is x else "l"
-                results.setdefault(key, v)
-                if results[key] != v:
-                    ctx.violation("str(x), repr(x), x.render()['html'] differ or change between calls",
-                                  {"tree": d, "ops": ops}, {"first": results[key], "now": v})
-        # dependency methods are read-only too
-        for dep in all_deps(x, [])[:3]:
-            f = rng.choice(DEP_OPS)
-            safe_call(lambda: f(dep))
-            after = snapshot([x, shared])
-            if after != before:
-                ctx.violation("an HTMLDependency as_html_tags/as_dict/source_path_map/serialize call changed an object",
-                              {"tree": d}, {"before": _first_diff(before, after)})
-                before = after
-        # ---- tagify: equal when nothing expands, fixed point, independent ------------------
-        r = safe_call(lambda: x.tagify())
-        if r[0] != "ok":
-            continue
-        y = r[1]
-        bare = "'M', None" in repr(d)   # bare MetadataNode objects compare by identity
-        if not custom and (structure(x) != structure(y) or (not bare and not (x == y))):
-            ctx.violation("tagify() of a tree without tagifiable objects does not equal the original", {"tree": d}, {})
-        z = y.tagify()
-        if structure(z) != structure(y) or str(z) != str(y) or (not bare and not (z == y)):
-            ctx.violation("tagify() is not a fixed point of tagify()", {"tree": d}, {})
-        a, b = mutable_ids(x), mutable_ids(y)
-        common = set(a) & set(b)
-        if common:
-            ctx.violation("tagify() result shares a tag, child list, attribute map or metadata node object with the original",
-                          {"tree": d}, {"shared": sorted({a[i] for i in common})})
-        # dependency internals
-        for dx, dy in zip(all_deps(x, []), all_deps(y, [])):
-            if (dx.head is not None and dx.head is dy.head) or (dx.script and dx.script is dy.script):
-                ctx.violation(WHAT_DEP_SHARE, {"tree": d}, {"dep": dx.name})
-                break
-        # mutate the copy through the public API; the original must not change
-        before = snapshot([x, shared])
-        _mutate(y, rng)
-        if snapshot([x, shared]) != before:
-            ctx.violation("mutating the tagify() copy through the public API changed the original", {"tree": d}, {})
-        y2 = x.tagify()
-        before2 = snapshot([y2])
-        _mutate(x, rng)
-        if snapshot([y2]) != before2:
-            ctx.violation("mutating the original through the public API changed an earlier tagify() copy", {"tree": d}, {})
+        battery(ctx, rng, d, ops, head_at=(rng.randrange(0, 5) if root == "html" and rng.random() < 0.5 else None),
+                routes=rng.random() < 0.25)
+
+    # ---- sizes and depths around thresholds; features together; live with-blocks; two of everything
+    for label, d, ops in sized_cases(ctx):
+        battery(ctx, sub_rng(ctx, label), d, ops, label=label, routes=True, tail=True)
+    for label, d, ops in feature_cases(ctx):
+        battery(ctx, sub_rng(ctx, label), d, ops, label=label, routes=True)
+    active_with_blocks(ctx)
+    second_objects(ctx)
+    dep_batteries(ctx)
 
     dep_method_histories(ctx)
 
@@ -844,20 +1890,26 @@ def run(ctx: Ctx) -> None:
             x3 = build_x(m[1], [Tag("em"), HTMLDependency("s", "1"), HTML("r")])
             if x == x3:
                 ctx.violation(f"== is true for tags that differ in {m[0]}", [d, m[1]], {})
-        if x == TagList(*x.children) or x == str(x) or x == HTMLDependency("a", "1"):
+        sx_ = safe_call(lambda: str(x))      # (a rendering that raises is a value, reported by the steps above)
+        if x == TagList(*x.children) or (sx_[0] == "ok" and x == sx_[1]) or x == HTMLDependency("a", "1"):
             ctx.violation("== is true for objects of different kinds", d, {})
 
 
-def _check_copy(ctx, orig, cp, d, rng, snap):
+def _check_copy(ctx, orig, cp, case, rng, snap, no_eq=False, mutate=True):
     """copy.copy(x): a new object with its own attribute map / child list (so that assigning to
     the copy's fields, attributes or child list cannot touch the original); the children are
-    shared (a shallow copy)"""
+    shared (a shallow copy); it equals the original"""
     if cp is orig or (isinstance(orig, Tag) and (cp.attrs is orig.attrs or cp.children is orig.children)) \
             or (isinstance(orig, TagList) and cp.data is orig.data):
-        ctx.violation("copy.copy(x) shares its attribute map or child list object with x", {"tree": d}, {})
+        ctx.violation("copy.copy(x) shares its attribute map or child list object with x", case, {})
         return
     if structure(cp) != structure(orig):
-        ctx.violation("copy.copy(x) is not structurally identical to x", {"tree": d}, {})
+        ctx.violation("copy.copy(x) is not structurally identical to x", case,
+                      {"difference": _first_diff(structure(orig), structure(cp))})
+    elif not no_eq and not (cp == orig and orig == cp):
+        ctx.violation("copy.copy(x) does not equal x", case, {})
+    if not mutate:
+        return
     before = snap()
     if isinstance(cp, Tag):
         cp.append("MUT", Tag("mut"))
@@ -866,11 +1918,14 @@ def _check_copy(ctx, orig, cp, d, rng, snap):
         cp.insert(0, HTML("<mut>"))
         if len(cp.children) > 2:
             cp.children.pop()
+        cp.children += ["more"]
     else:
         cp.append("MUT")
         cp.insert(0, Tag("mut"))
+        cp += [Tag("mut2")]
+        cp.pop()
     if snap() != before:
-        ctx.violation("mutating the fields, attributes or child list of copy.copy(x) changed x", {"tree": d}, {})
+        ctx.violation("mutating the fields, attributes or child list of copy.copy(x) changed x", case, {})
 
 
 def dep_method_histories(ctx: Ctx) -> None:
@@ -941,24 +1996,30 @@ def _first_diff(a, b, path=""):
     return f"{path}: {str(a)[:80]} -> {str(b)[:80]}" if a != b else None
 
 
-def _mutate(t, rng):
-    """a few public-API mutations at random places of a tag tree"""
+def _mutate(t, rng, tail=False):
+    """a few public-API mutations at random places of a tag tree (tail: also at its far end -- the last
+    tag in document order, the last child of the root and of the widest child list)"""
     tags = []
     def walk(x):
         if isinstance(x, Tag):
             tags.append(x)
             for c in x.children:
                 walk(c)
+        elif isinstance(x, TagList):
+            for c in x:
+                walk(c)
     walk(t)
-    for _ in range(3):
-        u = rng.choice(tags)
-        k = rng.randrange(0, 6)
+    picks = [rng.choice(tags) for _ in range(3)] if tags else []
+    if tail and tags:
+        picks += [tags[-1], max(tags, key=lambda u: len(u.children))]
+    for u in picks:
+        k = rng.randrange(0, 12)
         if k == 0:
             u.append("MUT", Tag("mut"))
         elif k == 1:
             u.attrs["data-mut"] = "1"
         elif k == 2:
-            u.add_class("mut")
+            u.add_class("mut", prepend=rng.random() < 0.5)
         elif k == 3 and len(u.children):
             u.children.pop()
         elif k == 4:
@@ -966,7 +2027,38 @@ def _mutate(t, rng):
             u.add_ws = not u.add_ws
         elif k == 5:
             u.insert(0, HTML("<mut>"))
-    for c in list(t.children):
+        elif k == 6:
+            u.extend(["MUT", [Tag("mut")]])
+        elif k == 7:
+            u.children += [Tag("mut"), "MUT"]
+        elif k == 8 and len(u.children):
+            u.children[-1] = Tag("mut", "replaced")
+        elif k == 9 and len(u.children):
+            del u.children[0]
+        elif k == 10:
+            u.attrs.update({"class": "mut"}, title=HTML("<mut>"))
+            u.add_style("top:0;", prepend=rng.random() < 0.5)
+        elif k == 11:
+            u.insert(-1, "MUT")
+            u.remove_class("mut")
+            for key in list(u.attrs)[-1:]:
+                u.attrs[key] = str(u.attrs[key]) + "!"
+    if tail and tags:
+        # the far end itself: the last tag gets a class, the widest list loses its last item and gains one
+        tags[-1].add_class("tail-mut")
+        w = max(tags, key=lambda u: len(u.children))
+        if len(w.children):
+            last = w.children[-1]
+            if isinstance(last, Tag):
+                last.attrs["data-tail"] = "1"
+                last.append("tail")
+            w.children.pop()
+        w.append("TAIL")
+    top = t.children if isinstance(t, Tag) else t
+    if isinstance(t, TagList):
+        t.append("MUT")
+        t.insert(0, Tag("mut"))
+    for c in list(top):
         if isinstance(c, HTMLDependency):
             c.name = c.name + "-mut"
             c.all_files = not c.all_files
